@@ -51,10 +51,12 @@ type outReq struct {
 }
 
 type issuerSet struct {
-	seed      int64
-	t3w       map[string]*t3World
-	keyIDLen  int  // != 0: requests are created with a key id argument of this length (kind OddKeyID)
-	zeroBlind bool // type 5: the request is created with caller-supplied blinds, the first of them zero (kind ZeroBlind)
+	seed           int64
+	t3w            map[string]*t3World
+	keyIDLen       int  // != 0: requests are created with a key id argument of this length (kind OddKeyID)
+	plainAddOrigin bool // type 3: the origin is registered through AddOrigin instead of AddOriginWithIndexKey
+	zeroBlindLen   int  // length of that first blind (32: the zero scalar; other lengths: malformed)
+	zeroBlind      bool // type 5: the request is created with caller-supplied blinds, the first of them zero (kind ZeroBlind)
 	// one client object per token type, constructed once and used for every
 	// request of a run (clients are meant to be long-lived objects)
 	c1 *type1.BasicPrivateClient
@@ -123,7 +125,11 @@ func (s *issuerSet) world(key string, origin string) *t3World {
 		return w
 	}
 	idx := map[string]int{"k1": 0, "k2": 1}[key]
-	w := newT3World(rsaKey(idx), s.seed, map[string]string{origin: "a"})
+	ik := "a"
+	if s.plainAddOrigin {
+		ik = "" // registered through AddOrigin (the issuer draws the index key itself)
+	}
+	w := newT3World(rsaKey(idx), s.seed, map[string]string{origin: ik})
 	s.t3w[id] = w
 	return w
 }
@@ -193,7 +199,7 @@ func (s *issuerSet) create(t, n int, key string, challenge []byte, nonces [][]by
 		var st type5.BatchedPrivateTokenRequestState
 		var err error
 		if s.zeroBlind {
-			blinds := [][]byte{make([]byte, 32)}
+			blinds := [][]byte{make([]byte, s.zeroBlindLen)}
 			for i := 1; i < len(nonces); i++ {
 				blinds = append(blinds, detBlind(s.seed, 5, fmt.Sprintf("zb%d", i)))
 			}
@@ -348,6 +354,14 @@ func execRun(c *ctx, in ev) ev {
 	r := newRand(c.seed, fmt.Sprintf("run-%v", in["rid"]))
 	s := &issuerSet{seed: c.seed, t3w: map[string]*t3World{}}
 	origin := strings.Repeat("o", olen)
+	if jInt(in["rid"])%2 == 1 && olen > 0 {
+		// every other run: a mixed-case name, registered through the other entry point (AddOrigin)
+		origin = "O" + strings.Repeat("o", olen-1)
+		if olen > 2 {
+			origin = "Oo" + strings.ToUpper(origin[2:3]) + origin[3:]
+		}
+		s.plainAddOrigin = true
+	}
 	if t != 5 {
 		n = 1
 	}
@@ -359,6 +373,10 @@ func execRun(c *ctx, in ev) ev {
 		s.keyIDLen = jInt(mut["len"])
 	}
 	s.zeroBlind = kind == "ZeroBlind"
+	s.zeroBlindLen = 32
+	if l, ok := mut["len"]; ok && s.zeroBlind {
+		s.zeroBlindLen = jInt(l)
+	}
 	mkNonces := func() [][]byte {
 		ns := [][]byte{}
 		for i := 0; i < n; i++ {
@@ -850,6 +868,10 @@ func (i *interner) id(b []byte) string {
 }
 
 func detBlind(seed int64, t int, name string) []byte {
+	if name == "short" { // a malformed blind (one byte missing): refused, or at least never the source of a wrong token
+		b := detBlind(seed, t, "b1")
+		return b[:len(b)-1]
+	}
 	if name == "zero" { // the degenerate blind: not invertible, so no token can come of it - least of all a wrong one
 		return make([]byte, map[int]int{1: 48, 5: 32, 2: 256}[t])
 	}
@@ -948,7 +970,7 @@ func execDet(c *ctx, in ev) []ev {
 	create := func(rw map[string]any) *pending {
 		t, key, nc, blind, salt := jInt(rw["t"]), rw["key"].(string), rw["nc"].(string), rw["blind"].(string), rw["salt"].(string)
 		pe := &pending{e: ev{"op": "Det", "t": t, "key": key, "nc": nc, "blind": blind, "salt": salt, "ok": false, "req": "", "tok": "", "err": "", "elems": []any{},
-			"bad_token": false, "degenerate": strings.Contains(blind, "zero")}}
+			"bad_token": false, "degenerate": strings.Contains(blind, "zero") || strings.Contains(blind, "short")}}
 		e := pe.e
 		var own [][]byte
 		p := guard(func() {
@@ -1617,7 +1639,7 @@ func genIssuance(c *ctx, emit func(ev)) {
 	id := ev{"kind": "Id"}
 	if want("honest") { // C01: the configuration space, honest network
 		chl := []int{0, 1, 32, 33, 1000}
-		ns := []int{1, 2, 3, 8, 513}
+		ns := []int{1, 2, 3, 8, 511, 512, 513} // 512 elements are 16384 bytes: the first length needing a four-byte varint
 		ols := []int{0, 1, 14, 31, 32, 33, 64}
 		if c.thorough() {
 			chl = append(chl, 31, 255, 4096, 70000)
@@ -1625,7 +1647,7 @@ func genIssuance(c *ctx, emit func(ev)) {
 			for i := 1; i <= 64; i++ {
 				ns = append(ns, i)
 			}
-			ns = append(ns, 100, 255, 513)
+			ns = append(ns, 100, 255, 511, 512, 513)
 			ols = []int{}
 			for i := 0; i <= 130; i++ {
 				ols = append(ols, i)
@@ -1701,6 +1723,9 @@ func genIssuance(c *ctx, emit func(ev)) {
 				if t == 5 {
 					run(5, 1, 16, 0, ev{"kind": "ZeroBlind"})
 					run(5, 3, 16, 0, ev{"kind": "ZeroBlind"})
+					for _, bl := range []int{0, 31, 33} { // malformed first blind
+						run(5, 2, 16, 0, ev{"kind": "ZeroBlind", "len": bl})
+					}
 				}
 				if t == 2 {
 					run(t, n, 16, 14, ev{"kind": "BigKey"})
@@ -1830,7 +1855,7 @@ func genIssuance(c *ctx, emit func(ev)) {
 		for _, key := range []string{"k1", "k2"} {
 			for _, comp := range [][2]string{{"n1+n2", "b1+b2"}, {"n1+n2", "b2+b1"}, {"n2+n1", "b2+b1"}, {"n1", "b1"}, {"n2", "b2"}, {"n1", "b2"},
 				{"n1+n2+n3", "b1+b2+one"}, {"n3+n1", "one+b1"}, {"n1+n2", "b1+b1"}, {"n1+n2", "b1+b2"}, {"n1+n2", "lead0+b2"}, {"n1+n2", "b3+b4"},
-				{"n1", "zero"}, {"n1+n2", "b1+zero"}, {"n1+n2", "zero+b2"}} {
+				{"n1", "zero"}, {"n1+n2", "b1+zero"}, {"n1+n2", "zero+b2"}, {"n1", "short"}, {"n1+n2", "short+b2"}, {"n1+n2+n3", "b1+short+b2"}} {
 				rows = append(rows, ev{"t": 5, "key": key, "nc": comp[0], "blind": comp[1], "salt": "s1"})
 			}
 		}
